@@ -225,14 +225,12 @@ def iter_key_candidates(key, doc):
     if not key:
         return [doc]
 
-    if doc is None:
-        return ()
-
     if isinstance(doc, list):
         return _iter_key_candidates_sublist(key, doc)
 
     if not isinstance(doc, dict):
-        return ()
+        # There is no field inside null or inside a scalar: the key is missing here.
+        return [NOTHING]
 
     key_parts = key.split('.')
     if len(key_parts) == 1:
